@@ -145,8 +145,9 @@ Definition op_substr : eager_fn :=
               let limit_abs := Z.abs l in
               if (l <? 0)%Z
               then (if (limit_abs <=? string_len)%Z then string_len - limit_abs else 0)%Z
-              else Z.min string_len
-                     (if (start_idx + limit_abs <? two64)%Z then start_idx + limit_abs else string_len)%Z
+              (* start_idx.checked_add(limit_abs) cannot overflow: a Rust string is shorter than
+                 2^63 bytes (allocations are bounded by isize::MAX) and limit_abs <= 2^63 *)
+              else Z.min string_len (start_idx + limit_abs)%Z
           end in
         let count := if (start_idx <=? end_idx)%Z then (end_idx - start_idx)%Z else 0%Z in
         Ok (Str (firstn (Z.to_nat count) (skipn (Z.to_nat start_idx) s)))
